@@ -159,7 +159,8 @@ namespace Dune
     template<typename T>
     FieldMatrix& operator=(const FieldMatrix<T, ROWS, COLS>& x)
     {
-      _data = x._data;
+      for (size_type i = 0; i < ROWS; ++i)
+        _data[i] = x[i];
       return *this;
     }
 
